@@ -80,6 +80,33 @@ def run(prog, rep, tier='quick', config='default'):
                 elif fs and any(of == TX for of, fl in fs):
                     stores.setdefault([fl for of, fl in fs if of == TX][0], ex.where(s))
         aggs = [s for b in ex.blocks.values() for s in b['stmts'] if s['r']['rv'] == 'agg' and s['r']['kind'].startswith('adt:' + TX + '::')]
+        # functional-update form `Tx { affiliate: a.clone(), ..global.clone() }` (possibly in a closure of the expansion):
+        # every field but `affiliate` is taken, same name, from one local that is the result of a clone of a Tx
+        fu_ok, fu_bad = [], []
+        for g in [ex] + list(prog.closures_of(ex)):
+            for b in g.blocks.values():
+                for s in b['stmts']:
+                    if s['r']['rv'] != 'agg' or not s['r']['kind'].startswith('adt:' + TX + '::'):
+                        continue
+                    srcs, good = set(), True
+                    for fname, op in zip(s['r'].get('fields', []), s['r']['ops']):
+                        if fname == 'affiliate':
+                            continue
+                        pl = op.get('pl')
+                        if not pl or len(pl['p']) != 1 or not isinstance(pl['p'][0], dict) or pl['p'][0].get('f') != fname or pl['p'][0].get('of') != TX:
+                            good = False
+                            break
+                        srcs.add(pl['l'])
+                    if good and len(srcs) == 1:
+                        l = next(iter(srcs))
+                        good = any(c.short == 'clone' and c.dst and c.dst['l'] == l and not c.dst['p'] for c in g.calls)
+                    else:
+                        good = False
+                    (fu_ok if good else fu_bad).append((g, s))
+        if fu_ok and not fu_bad:
+            aggs = []
+        elif fu_bad and fu_bad[0][0] is not ex:
+            aggs = [fu_bad[0][1]]
         clones = [c for c in ex.calls if c.short == 'clone' and TX in (ex.ty.get(c.dst['l'], ''))]
         inserts = [c for c in ex.calls if c.short == 'insert' and re.search(r'vec::Vec', c.callee)]
         if aggs:
@@ -89,6 +116,11 @@ def run(prog, rep, tier='quick', config='default'):
             other = sorted(set(stores) - {'affiliate'})
             rep.violation('R15c', 'expansion-changes-affiliate-only', where=stores[other[0]], fn=ex.name,
                           detail='global-split expansion also overwrites Tx.%s: the per-affiliate rows must equal the global row except for the affiliate' % ', '.join(other))
+        elif fu_ok and not fu_bad and not (set(stores) - {'affiliate'}) and \
+                any(c.short in ('splice', 'insert', 'extend', 'push') and re.search(r'vec::Vec', c.callee) for c in ex.calls):
+            g, s0 = fu_ok[0]
+            rep.ok('R15c', 'expansion-changes-affiliate-only', where=g.where(s0), fn=ex.name,
+                   detail='each new row is `Tx { affiliate, ..clone of the global split }`: every other field is taken from the clone')
         elif 'affiliate' in stores and clones and inserts:
             ok = True
             for c in inserts:
